@@ -1417,6 +1417,11 @@ where
     }
 }
 
+#[cfg(feature = "verif-hooks")]
+pub(crate) fn verif_realdirpath(p: &Path) -> io::Result<PathBuf> {
+    realdirpath(p).map(|c| c.into_owned())
+}
+
 #[cfg(test)]
 mod tests {
     use super::*;
